@@ -9,6 +9,14 @@ theorem PCMFrame_eq_sound (a b : Frame) (hal : a.alignment = b.alignment) (h : F
   obtain ⟨h1, h2, h3, h4, h5, h6⟩ := (Frame_eq_iff a b).1 h
   simp only [Frame.pack, h1, h2, h3, h4, h5, h6, hal]
 
+/-- the hypothesis `hal` cannot be dropped: `PCMMinorFrame.__eq__` does not look at `alignment` (a constructor option),
+    and two frames that differ only there compare equal and encode differently (2- vs 4-byte data header) -/
+example :
+    let f0 : Frame := ⟨.rtc 1, false, some 7, [1, 2, 3, 4], 0, Option.none, Option.none⟩
+    let f1 : Frame := ⟨.rtc 1, false, some 7, [1, 2, 3, 4], 1, Option.none, Option.none⟩
+    Frame.eq f0 f1 = true ∧
+    (match f0.pack, f1.pack with | .ok x, .ok y => x != y | _, _ => false) = true := ⟨by decide, rfl⟩
+
 example :
     let f : Frame := ⟨.ptp 7 8, false, some 0xFFFFFFFF, [1, 2, 3], 1, Option.none, Option.none⟩
     f.alignment = f.alignment ∧ Frame.eq f f = true := ⟨rfl, by decide⟩
